@@ -515,7 +515,11 @@ def op_resize(k, v):
     r = len(v)
     t = [3, 4, 2, 2][:r]
     # the element map of view::resize (nearest neighbour) is not NumPy's: only the shape is the reference here
-    return [Node('resize', [k], 'ct', ct=tuple(t), npf=lambda a, _, t=t: np.zeros(t, dtype=np.int64), cxx=lambda e, _, t=t: 'view::resize(%s, %s)' % (e[0], ct_tuple(t))),
+    def same_rank(a, t):
+        if a.ndim != len(t):
+            raise ValueError('resize keeps the rank')
+        return np.zeros(t, dtype=np.int64)
+    return [Node('resize', [k], 'ct', ct=tuple(t), npf=lambda a, _, t=t: same_rank(a[0], t), cxx=lambda e, _, t=t: 'view::resize(%s, %s)' % (e[0], ct_tuple(t))),
             Node('resize', [k], 'rt', N=r, rfun=lambda s, r=r: [x + 1 for x in s[0]] if len(s[0]) == r else None,
                  npf=lambda a, x: np.zeros(x, dtype=np.int64), cxx=lambda e, x: 'view::resize(%s, %s)' % (e[0], x)),
             Node('resize', [k], 'rtv', rfun=lambda s: [x + 2 for x in s[0]], npf=lambda a, x: np.zeros(x, dtype=np.int64),
